@@ -41,6 +41,12 @@ class SignallingCondition(threading.Condition):
     def __exit__(self, *exc):
         res = super().__exit__(*exc)
         gate = self.exit_gate
+        if gate is not None and gate.get("hold") == "waiter":
+            # variant: it is the designated waiter that is held after it has left its critical section
+            if threading.get_ident() == gate.get("waiter") and gate.get("armed") and not gate["go"].is_set():
+                gate["left"].set()
+                gate["go"].wait(gate.get("max", 20.0))
+            return res
         if gate is not None and threading.get_ident() != gate.get("waiter") and not gate["go"].is_set():
             gate["left"].set()
             gate["go"].wait(gate.get("max", 20.0))
